@@ -1,8 +1,9 @@
 (* C10 -- evaluation of harness observations inside Coq (used by checks/c10.py):
    model_ok = the executable model reproduces the observation (correspondence),
-   spec_ok  = the observation satisfies the specification (oracle; does not use the model). *)
+   spec_ok  = the observation satisfies the specification (oracle; does not use the model;
+              spec_binary_eval is proved equal to Spec.spec_binary in ProofsInt). *)
 From Coq Require Import ZArith Bool List.
-From SV Require Import Common.GoInt C10.Model C10.Spec.
+From SV Require Import Common.GoInt C10.Model C10.Spec C10.ProofsInt.
 Import ListNotations.
 Open Scope Z_scope.
 
@@ -42,7 +43,7 @@ Definition arm_spec (z : Z) : nat := if in_int32 z then 1%nat else 2%nat.
 Definition spec_ok (c : case) : bool :=
   match c with
   | CBin _ o x y r arm =>
-      optZ_eqb (spec_binary o x y) r && match r with Some z => Nat.eqb arm (arm_spec z) | None => true end
+      optZ_eqb (spec_binary_eval o x y) r && match r with Some z => Nat.eqb arm (arm_spec z) | None => true end
   | CCmp _ c x y r => Bool.eqb (spec_compare c x y) r
   | CUn _ o x r arm => (spec_unary o x =? r) && Nat.eqb arm (arm_spec r)
   end.
